@@ -991,6 +991,10 @@ pub fn generate(rng: &mut Rng, tier: Tier, emit: &mut dyn FnMut(String)) {
         emit_pool(rng, emit, slow_left % 4 == 0);
         slow_left -= 1;
     }
+    // metadata refreshes that re-create known nodes (last, so that the cases above keep their random streams)
+    for _ in 0..40 * scale {
+        sess_topo_generate(rng, emit);
+    }
 }
 
 /// In-bucket order of an unsharded pool (`Vec::swap_remove` in `remove_connection`, `push` on refill): under
@@ -1591,11 +1595,82 @@ fn sess_generate(rng: &mut Rng, emit: &mut dyn FnMut(String)) {
     emit(format!("sess {} {} {}", n_field, names_field(&sc.names), steps.join(";")));
 }
 
-/// The session's host filter of the `sess <n>/<mask>` cases: rejects the listed addresses.
-struct RejectAddrs(Vec<std::net::IpAddr>);
-impl scylla::policies::host_filter::HostFilter for RejectAddrs {
+/// `sess` cases in which metadata refreshes RE-CREATE the `Node` of an already known host after (and before) a
+/// successful use_keyspace: the cluster reports another datacenter (`D<h>`) or rack (`B<h>`) for it, or the host filter's
+/// answer for it flips (`F<h>`: accepted -> rejected drops the pool, rejected -> accepted builds a new one). Every
+/// re-created node is then hit by TARGETED requests: they must arrive on connections that acknowledged the keyspace
+/// (`ClusterState::calculate_new_topology` hands `node_config.used_keyspace` to every `Node::new`).
+fn sess_topo_generate(rng: &mut Rng, emit: &mut dyn FnMut(String)) {
+    let n = rng.range(1, 3) as usize;
+    let sc = pick_names(rng, 2, false);
+    let with_filter = rng.chance(1, 2);
+    // at least one node stays accepted throughout (`keep`)
+    let keep = rng.below(n as u64) as usize;
+    let host_mask: usize = if with_filter && rng.bool() { (rng.below(1 << n) as usize) & !(1 << keep) } else { 0 };
+    let mut mask = host_mask;
+    let mut nodes = n;
+    let mut steps: Vec<String> = vec!["W".into()];
+    let change = |rng: &mut Rng, steps: &mut Vec<String>, mask: &mut usize, nodes: usize| {
+        let h = rng.below(nodes as u64) as usize;
+        let op = match rng.below(if with_filter { 4 } else { 2 }) {
+            0 => "D",
+            1 => "B",
+            _ if h != keep => "F",
+            _ => "D",
+        };
+        if op == "F" {
+            *mask ^= 1 << h;
+        }
+        steps.push(format!("{}{}", op, h));
+        if *mask >> h & 1 == 0 || rng.chance(1, 4) {
+            steps.push(format!("Q{}@{}", rng.range(1, 2), h));
+        }
+        steps.push(format!("Q{}", rng.range(1, 3)));
+    };
+    // sometimes a change before any keyspace is set (the new pool starts without one)
+    if rng.chance(1, 3) {
+        change(rng, &mut steps, &mut mask, nodes);
+    }
+    steps.push(format!("U{}", rng.below(2)));
+    steps.push(format!("Q{}", rng.range(1, 2)));
+    for _ in 0..rng.range(2, 4) {
+        match rng.below(8) {
+            0 => {
+                steps.push(format!("U{}", rng.below(2)));
+                steps.push(format!("Q{}", rng.range(1, 3)));
+            }
+            1 => {
+                let h = rng.below(nodes as u64);
+                steps.push(format!("K{}", h));
+                steps.push("W".into());
+                steps.push(format!("Q{}@{}", rng.range(1, 2), h));
+            }
+            2 if nodes < 4 => {
+                nodes += 1;
+                steps.push("A".into());
+                steps.push(format!("Q{}", rng.range(1, 3)));
+            }
+            _ => change(rng, &mut steps, &mut mask, nodes),
+        }
+    }
+    change(rng, &mut steps, &mut mask, nodes);
+    if rng.bool() {
+        steps.push("P".into());
+    }
+    steps.push("W".into());
+    steps.push("L".into());
+    let has_f = steps.iter().any(|s| s.starts_with('F'));
+    let n_field = if host_mask == 0 && !has_f { n.to_string() } else { format!("{}/{}", n, host_mask) };
+    emit(format!("sess {} {} {}", n_field, names_field(&sc.names), steps.join(";")));
+}
+
+/// The session's host filter of the `sess <n>/<mask>` cases: rejects the addresses of the nodes whose bit is set in the
+/// mask (the mask can change between two metadata refreshes: step `F<h>`).
+struct RejectMask(Vec<std::net::IpAddr>, Arc<std::sync::atomic::AtomicUsize>);
+impl scylla::policies::host_filter::HostFilter for RejectMask {
     fn accept(&self, peer: &scylla::cluster::metadata::Peer) -> bool {
-        !self.0.contains(&peer.address.ip())
+        let mask = self.1.load(std::sync::atomic::Ordering::SeqCst);
+        !self.0.iter().enumerate().any(|(i, ip)| mask >> i & 1 == 1 && *ip == peer.address.ip())
     }
 }
 
@@ -1616,9 +1691,16 @@ fn run_sess(w: &[&str], ctx: &mut Ctx) -> Option<String> {
     if !(1..=4).contains(&n) || host_mask >= 256 || zero_mask >= 256 || (0..n).all(|i| zero_mask >> i & 1 == 1) {
         return None;
     }
-    let filtered = move |i: usize| host_mask >> i & 1 == 1;
+    use std::sync::atomic::{AtomicUsize, Ordering as AO};
     let names = parse_names(w.get(2)?)?;
     let steps: Vec<&str> = w.get(3)?.split(';').filter(|s| !s.is_empty()).collect();
+    // the filter's current mask (`F<h>` flips bit h); a filter is installed when some node is rejected at some time
+    let mask_now = Arc::new(AtomicUsize::new(host_mask));
+    let use_filter = host_mask != 0 || steps.iter().any(|s| s.starts_with('F'));
+    let filtered = {
+        let m = Arc::clone(&mask_now);
+        move |i: usize| m.load(AO::SeqCst) >> i & 1 == 1
+    };
     let shape = Shape { nodes: n, dcs: 1, racks: 1, shards: 0, msb: 12, vnodes: 2, strat: Strat::Simple(1), seed: 7 };
     let mut topo = shape.topology();
     for (i, node) in topo.nodes.iter_mut().enumerate() {
@@ -1662,10 +1744,14 @@ fn run_sess(w: &[&str], ctx: &mut Ctx) -> Option<String> {
         // a call whose USE is not answered by some node times out after the connection timeout
         let with_timeouts = steps.iter().any(|s| s.starts_with('T'));
         // the host filter: rejects the nodes of the mask (by address; nodes that join later included)
-        let rejected: Vec<std::net::IpAddr> = (0..8).filter(|i| filtered(*i)).map(|i| cluster.addr(i).ip()).collect();
+        let all_ips: Vec<std::net::IpAddr> = (0..8).map(|i| cluster.addr(i).ip()).collect();
+        // (from, to, mask): the filter's answers between two flips, on the cluster's logical clock (the time of a flip's
+        // refresh belongs to neither side)
+        let mut mask_hist: Vec<(u64, u64, usize)> = vec![(0, u64::MAX, host_mask)];
+        let (mut alt_dc, mut alt_rack) = (0usize, 0usize);
         // waits until the session knows all nodes and every node the filter accepts has its pool connection
         let wait_full = async |session: &scylla::client::session::Session, timeout: Duration| -> bool {
-            if host_mask == 0 {
+            if !use_filter {
                 return cluster.wait_pools_full(session, timeout).await;
             }
             let t0 = std::time::Instant::now();
@@ -1685,9 +1771,9 @@ fn run_sess(w: &[&str], ctx: &mut Ctx) -> Option<String> {
         };
         let customise = |b: scylla::client::session_builder::SessionBuilder| {
             let b = if with_timeouts { b.connection_timeout(Duration::from_millis(700)) } else { b };
-            if host_mask == 0 { b } else { b.host_filter(Arc::new(RejectAddrs(rejected.clone()))) }
+            if !use_filter { b } else { b.host_filter(Arc::new(RejectMask(all_ips.clone(), Arc::clone(&mask_now)))) }
         };
-        let built = if host_mask == 0 {
+        let built = if !use_filter {
             connect(&cluster, customise).await
         } else {
             match customise(cluster.session_builder()).build().await {
@@ -1780,6 +1866,68 @@ fn run_sess(w: &[&str], ctx: &mut Ctx) -> Option<String> {
                     wait_full(&session, Duration::from_secs(3)).await;
                     out.push(format!("a{}", cluster.n_nodes()));
                 }
+                // `D<h>` / `B<h>`: the cluster reports another datacenter / rack for node h (toggled); `F<h>`: the host
+                // filter's answer for node h flips. Then a metadata refresh: calculate_new_topology keeps, re-creates or
+                // disables the `Node` of every host. Token: per host `=` same Arc<Node> (enabled), `-` same (disabled),
+                // `n` new enabled Node, `x` new disabled Node
+                "D" | "B" | "F" => {
+                    let h: usize = arg.parse().ok()?;
+                    if h >= cluster.n_nodes() || (op == "F" && !use_filter) {
+                        return None;
+                    }
+                    let before: Vec<Arc<scylla::cluster::Node>> = session.get_cluster_state().get_nodes_info().to_vec();
+                    match op {
+                        "D" => {
+                            alt_dc ^= 1 << h;
+                            cluster.set_node_dc(h, &Shape::dc_name(alt_dc >> h & 1));
+                        }
+                        "B" => {
+                            alt_rack ^= 1 << h;
+                            cluster.set_node_rack(h, if alt_rack >> h & 1 == 1 { "r2" } else { "r1" });
+                        }
+                        _ => {
+                            mask_hist.last_mut().unwrap().1 = cluster.now();
+                            mask_now.fetch_xor(1 << h, AO::SeqCst);
+                        }
+                    }
+                    let _ = session.refresh_metadata().await;
+                    let tok: String = {
+                        let state = session.get_cluster_state();
+                        (0..cluster.n_nodes())
+                            .map(|i| {
+                                let id = uuid::Uuid::from_bytes(host_id_of(i));
+                                match state.get_nodes_info().iter().find(|x| x.host_id == id) {
+                                    None => '?',
+                                    Some(x) => match (before.iter().any(|o| Arc::ptr_eq(o, x)), x.is_enabled()) {
+                                        (true, true) => '=',
+                                        (true, false) => '-',
+                                        (false, true) => 'n',
+                                        (false, false) => 'x',
+                                    },
+                                }
+                            })
+                            .collect()
+                    };
+                    // the old Node objects (and their pools) go away with the last reference
+                    drop(before);
+                    // settle: every accepted node has exactly its one pool connection, every rejected node none
+                    let t0 = std::time::Instant::now();
+                    loop {
+                        let conns = cluster.conns();
+                        let settled = (0..cluster.n_nodes()).all(|i| {
+                            let live = conns.iter().filter(|c| c.node == i && !c.control && c.ready.is_some() && c.closed.is_none()).count();
+                            live == if use_filter && filtered(i) { 0 } else { 1 }
+                        });
+                        if (settled && wait_full(&session, Duration::from_millis(200)).await) || t0.elapsed() > Duration::from_secs(4) {
+                            break;
+                        }
+                        tokio::time::sleep(Duration::from_millis(5)).await;
+                    }
+                    if op == "F" {
+                        mask_hist.push((cluster.now(), u64::MAX, mask_now.load(AO::SeqCst)));
+                    }
+                    out.push(format!("d{}", tok));
+                }
                 "P" => {
                     // Session::prepare: one random connection per known node (cluster/state.rs
                     // iter_working_connections_to_nodes), all working connections as the fallback
@@ -1843,7 +1991,8 @@ fn run_sess(w: &[&str], ctx: &mut Ctx) -> Option<String> {
             }
         }
         // oracle at the nodes
-        for c in cluster.conns().iter().filter(|c| filtered(c.node) && !c.control) {
+        let rejected_at = |node: usize, t: u64| mask_hist.iter().any(|(from, to, m)| *from <= t && t <= *to && m >> node & 1 == 1);
+        for c in cluster.conns().iter().filter(|c| rejected_at(c.node, c.opened) && !c.control) {
             ctx.fail(format!("sess: the host filter rejects node {}, yet a pool connection was opened to it (acknowledged {:?})", c.node, c.keyspace_acks));
         }
         for f in cluster.frames() {
@@ -1851,7 +2000,7 @@ fn run_sess(w: &[&str], ctx: &mut Ctx) -> Option<String> {
                 Parsed::Query { text, .. } | Parsed::Prepare { text } => text.clone(),
                 _ => continue,
             };
-            if filtered(f.node) && text.starts_with("SELECT pk, v FROM t WHERE pk = 0x") {
+            if rejected_at(f.node, f.seq) && text.starts_with("SELECT pk, v FROM t WHERE pk = 0x") {
                 ctx.fail(format!("sess: the request {:?} ran on node {}, which the host filter rejects (it has no pool, so no connection there ever acknowledged a keyspace)", text, f.node));
             }
             for (nm, _) in names.iter().filter(|(nm, _)| !spec_valid(nm) && !nm.is_empty()) {
